@@ -13,9 +13,19 @@ Nodes are lists:
     ['try', body, [[names, block]...], else_block|None]
     ['tryfin', body, finally_block]
     ['in', n, body, else_block|None]     loop over n items
-    ['with', body] ['let', body] ['if', truth, body, else|None] ['unless', truth, body]
+    ['with', body(, variant)]            dtml-with; variant obj (default) | map | only | maponly |
+                                         expronly | exprmaponly: the "only" spellings render the
+                                         block in a NEW namespace that holds nothing but the given
+                                         object (the harness hands it the whole top-level namespace
+                                         of the render, so probes stay reachable)
+    ['let', body] ['if', truth, body, else|None] ['unless', truth, body]
     ['comment', body]
-    ['sub', key, route]                  call of sub-template subs[key]; route var|call
+    ['sub', key, route]                  call of sub-template subs[key]; route var|call|fresh
+                                         (fresh: called with a plain mapping, not the caller's
+                                         namespace object: the callee builds its own namespace)
+    ['einfo', id, form]                  the template itself reads error_type / error_value /
+                                         error_tb (form var|expr|tb|ifexpr|item), guarded by a
+                                         dtml-if so that it renders '[-]' where they are not bound
 
 Data-dependent nodes read a variable of the current *environment* (the namespace of this
 render, or the row of the innermost enclosing ['vin'] loop; a row that does not define a
@@ -127,6 +137,8 @@ def _src(n, style):
         if style == 'name':
             return '<dtml-var X_%s>' % n[1]
         return '<dtml-var "boom(\'%s\', \'%s\', \'%s\', %d, _)">' % (n[1], n[2], n[3], n[4])
+    if k == 'einfo':
+        return EINFO_SRC[n[2]] % {'id': n[1]}
     if k == 'vraise':
         mode, var = n[1], n[2]
         if mode == 'expr':
@@ -201,7 +213,7 @@ def _src(n, style):
             s += '<dtml-else>' + to_src(n[3])
         return s + '</dtml-in>'
     if k == 'with':
-        return '<dtml-with wobj>' + to_src(n[1]) + '</dtml-with>'
+        return WITH_SRC[with_variant(n)] + to_src(n[1]) + '</dtml-with>'
     if k == 'let':
         return '<dtml-let lx="1">' + to_src(n[1]) + '</dtml-let>'
     if k == 'if':
@@ -216,10 +228,68 @@ def _src(n, style):
     if k == 'sub':
         if n[2] == 'var':
             return '<dtml-var sub_%s>' % n[1]
+        if n[2] == 'fresh':
+            if style == 'name':
+                return '<dtml-var F_%s>' % n[1]
+            return '<dtml-var "callfresh(\'%s\', _)">' % n[1]
         if style == 'name':
             return '<dtml-var C_%s>' % n[1]
         return '<dtml-var "callsub(\'%s\', _)">' % n[1]
     raise ValueError('unknown node %r' % (n,))
+
+
+# dtml-with spellings.  wobj: an object without the names a block needs; wmap: a small mapping;
+# ns_obj / ns_map: an object / a mapping holding the whole top-level namespace of this render.
+WITH_SRC = {'obj': '<dtml-with wobj>',
+            'map': '<dtml-with wmap mapping>',
+            'only': '<dtml-with ns_obj only>',
+            'maponly': '<dtml-with ns_map mapping only>',
+            'expronly': '<dtml-with expr="ns_obj" only>',
+            'exprmaponly': '<dtml-with "ns_map" mapping only>'}
+WITH_ONLY = ['only', 'maponly', 'expronly', 'exprmaponly']
+
+
+def with_variant(n):
+    return n[2] if len(n) > 2 else 'obj'
+
+
+def with_kind(n):
+    return 'with only' if with_variant(n) in WITH_ONLY else 'with'
+
+
+# the template reads the handler variables itself; every form is guarded so that it renders
+# '[-]' where error_type is not bound (the statement: bound inside the handler only)
+EFORMS = ['var', 'expr', 'tb', 'ifexpr', 'item']
+EINFO_SRC = {
+    'var': '<dtml-if error_type>[<dtml-var error_type>|<dtml-var error_value>]<dtml-else>[-]</dtml-if>',
+    'expr': '<dtml-if "_.has_key(\'error_type\')">'
+            '<dtml-var "elog(\'%(id)s\', error_type, error_value, error_tb)"><dtml-else>[-]</dtml-if>',
+    'tb': '<dtml-if error_type><dtml-if error_tb>[tb]<dtml-else>[notb]</dtml-if><dtml-else>[-]</dtml-if>',
+    'ifexpr': '<dtml-if error_type><dtml-if "error_type == \'E2\'">[is]<dtml-else>[isnt]</dtml-if>'
+              '<dtml-else>[-]</dtml-if>',
+    'item': '<dtml-if error_type>[<dtml-var "_[\'error_type\']">]<dtml-else>[-]</dtml-if>',
+}
+WILD = '\x00'       # in a model text: "any text" (the statement does not fix it)
+
+
+def text_eq(exp, got):
+    """Model text against engine text; WILD in the model text matches anything."""
+    if not isinstance(exp, str) or WILD not in exp:
+        return exp == got
+    if not isinstance(got, str):
+        return False
+    import re
+    return re.fullmatch('.*'.join(re.escape(x) for x in exp.split(WILD)), got, re.S) is not None
+
+
+def enc_eq(exp, got):
+    """enc() codes of a model value and an engine value."""
+    if exp == got:
+        return True
+    if exp.startswith('str:') and got.startswith('str:') and repr(WILD)[1:-1] in exp:
+        import ast
+        return text_eq(ast.literal_eval(exp[4:]), ast.literal_eval(got[4:]))
+    return False
 
 
 def children(n):
@@ -247,7 +317,9 @@ def children(n):
         if n[3] is not None:
             out.append(('in else', n[3]))
         return out
-    if k in ('with', 'let', 'comment'):
+    if k == 'with':
+        return [(with_kind(n), n[1])]
+    if k in ('let', 'comment'):
         return [(k, n[1])]
     if k == 'if':
         out = [('if', n[2])]
@@ -381,7 +453,48 @@ class Model:
             t['top level'] = t.get('top level', 0) + 1
 
     def cur(self):
-        return list(self.bind[-1]) if self.bind else None
+        # None on top of the stack: the block is rendered in a namespace of its own, in which
+        # nothing bound by an enclosing handler exists
+        return list(self.bind[-1]) if self.bind and self.bind[-1] is not None else None
+
+    def fresh(self, f):
+        """Run f() in a NEW namespace that holds only the top-level namespace of this render
+        (dtml-with ... only; a sub-template called with a plain mapping): loop rows and handler
+        bindings of the enclosing blocks are not visible there, and come back afterwards."""
+        saved = self.scopes
+        self.scopes = [saved[0]]
+        self.bind.append(None)
+        try:
+            return f()
+        finally:
+            self.bind.pop()
+            self.scopes = saved
+
+    def do_einfo(self, n, tok):
+        """The template reads error_type / error_value / error_tb itself."""
+        b = self.cur()
+        form = n[2]
+        if b is None:
+            self.stat('einfo: error_type not bound here (form %s)' % form)
+            return '[-]'
+        self.stat('einfo: handler variables read by form ' + form)
+        cls, msg = b
+        k = resolve(cls)
+        if form == 'var':
+            # dtml-var of the exception instance: its message where str(exception) is the message
+            # (the statement does not say how an exception object is turned into text otherwise)
+            exact = k is not None and isinstance(msg, str) and WILD not in msg and str(k(msg)) == msg
+            return '[%s|%s]' % (cls if k is not None else WILD, msg if exact else WILD)
+        if form == 'expr':
+            self.trace.append(['e', n[1], b, tok])
+            return '[e]'
+        if form == 'tb':
+            return '[tb]'
+        if form == 'ifexpr':
+            return '[is]' if cls == 'E2' else '[isnt]'
+        if form == 'item':
+            return '[%s]' % (cls if k is not None else WILD)
+        raise ValueError(form)
 
     def lookup(self, key):
         """Innermost scope defining the variable (None = not defined there)."""
@@ -401,6 +514,8 @@ class Model:
         if k == 'probe':
             self.trace.append(['p', n[1], self.cur(), tok])
             return '{%s}' % n[1]
+        if k == 'einfo':
+            return self.do_einfo(n, tok)
         if k == 'boom':
             c = self.booms[n[1]] = self.booms.get(n[1], 0) + 1
             self.trace.append(['b', n[1], self.cur(), tok])
@@ -456,7 +571,13 @@ class Model:
             if n[1] == 0:
                 return self.block(n[3], 'in else') if n[3] is not None else ''
             return ''.join([self.block(n[2], 'in') for _ in range(n[1])])
-        if k in ('with', 'let'):
+        if k == 'with':
+            v = with_variant(n)
+            self.stat('with spelling ' + v)
+            if v in WITH_ONLY:
+                return self.fresh(lambda: self.block(n[1], 'with only'))
+            return self.block(n[1], 'with')
+        if k == 'let':
             return self.block(n[1], k)
         if k == 'if':
             if n[1]:
@@ -578,17 +699,20 @@ class Model:
         self.stat('sub-template call route ' + route)
         self.kinds.append('sub-template')
         try:
-            if route == 'call':
+            if route != 'var':
                 self.trace.append(['sub>', key])
             try:
-                res = self.call(self.subs[key])
+                if route == 'fresh':
+                    res = self.fresh(lambda: self.call(self.subs[key]))
+                else:
+                    res = self.call(self.subs[key])
             except MExc as e:
-                if route == 'call':
+                if route != 'var':
                     self.trace.append(['sub<', key, ['exc', e.cls.__name__, e.msg]])
                 raise
         finally:
             self.kinds.pop()
-        if route == 'call':
+        if route != 'var':
             self.trace.append(['sub<', key, ['val', enc(res)]])
         return sub_text(res, route)
 
@@ -615,6 +739,17 @@ class Ids:
         return '%s%d' % (prefix, self.n)
 
 
+def einfo(ids):
+    """A node in which the template itself reads the handler variables; the form rotates with
+    the position in the template, so every form meets every role across a grid."""
+    i = ids('i')
+    return ['einfo', i, EFORMS[ids.n % len(EFORMS)]]
+
+
+def only_variant(ids, rot=None):
+    return WITH_ONLY[(ids.n + (rot or 0)) % len(WITH_ONLY)]
+
+
 def raiser(ids, cls, how, tag):
     """A node raising class `cls` with message 'm-<tag>'."""
     msg = 'm-' + tag
@@ -629,7 +764,8 @@ def raiser(ids, cls, how, tag):
 
 
 HOWS = ['expr', 'boom', 'cls', 'qexpr', 'exprp']
-WRAPPERS = ['none', 'outer_E2_bare', 'outer_fin', 'in2', 'in_handler', 'sub']
+WRAPPERS = ['none', 'outer_E2_bare', 'outer_fin', 'in2', 'in_handler', 'sub', 'with_only',
+            'handler_with_only']
 
 
 def wrap(ids, nodes, wrapper, subs):
@@ -639,14 +775,14 @@ def wrap(ids, nodes, wrapper, subs):
     if wrapper == 'outer_E2_bare':
         return [['probe', ids()],
                 ['try', [['probe', ids()]] + nodes + [['probe', ids()]],
-                 [[['E2'], [['text', 'O2:'], ['probe', ids('o')]]],
-                  [[''], [['text', 'OB:'], ['probe', ids('o')]]]],
-                 [['text', 'OE:'], ['probe', ids('o')]]],
+                 [[['E2'], [['text', 'O2:'], ['probe', ids('o')], einfo(ids)]],
+                  [[''], [['text', 'OB:'], ['probe', ids('o')], einfo(ids)]]],
+                 [['text', 'OE:'], ['probe', ids('o')], einfo(ids)]],
                 ['probe', ids()]]
     if wrapper == 'outer_fin':
         return [['probe', ids()],
                 ['tryfin', [['probe', ids()]] + nodes + [['probe', ids()]],
-                 [['text', 'OF:'], ['probe', ids('f')]]],
+                 [['text', 'OF:'], ['probe', ids('f')], einfo(ids)]],
                 ['probe', ids()]]
     if wrapper == 'in2':
         return [['probe', ids()], ['in', 2, [['probe', ids()]] + nodes + [['probe', ids()]], None],
@@ -654,12 +790,27 @@ def wrap(ids, nodes, wrapper, subs):
     if wrapper == 'in_handler':
         return [['probe', ids()],
                 ['try', [['boom', ids('x'), 'Other', 'm-outer', 0]],
-                 [[['Other'], [['probe', ids()]] + nodes + [['probe', ids()]]]], None],
+                 [[['Other'], [['probe', ids()], einfo(ids)] + nodes + [['probe', ids()], einfo(ids)]]], None],
                 ['probe', ids()]]
     if wrapper == 'sub':
         key = 'w%d' % len(subs)
         subs[key] = [['probe', ids()]] + nodes + [['probe', ids()]]
         return [['probe', ids()], ['sub', key, 'call'], ['text', '|'], ['probe', ids()]]
+    if wrapper == 'with_only':
+        # the whole construct is rendered in a namespace of its own
+        return [['probe', ids()],
+                ['with', [['probe', ids()]] + nodes + [['probe', ids()]], only_variant(ids)],
+                ['probe', ids()]]
+    if wrapper == 'handler_with_only':
+        # inside a handler, but in a namespace of its own: the outer handler's variables are not
+        # visible in there, and are visible again behind it
+        return [['probe', ids()],
+                ['try', [['boom', ids('x'), 'Other', 'm-outer', 0]],
+                 [[['Other'], [['probe', ids()], einfo(ids),
+                               ['with', [['probe', ids()], einfo(ids)] + nodes + [['probe', ids()]],
+                                only_variant(ids)],
+                               ['probe', ids()], einfo(ids)]]], None],
+                ['probe', ids()]]
     raise ValueError(wrapper)
 
 
@@ -696,13 +847,13 @@ def build_handler_case(params, how, wrapper, merge=False):
     hl, body_cls, with_else, sec = params
     ids = Ids()
     subs = {}
-    body = [['text', 'B:'], ['probe', ids('b')]]
+    body = [['text', 'B:'], ['probe', ids('b')], einfo(ids)]
     if body_cls:
         body.append(raiser(ids, body_cls, how, 'body'))
     body.append(['probe', ids('b')])
     handlers = []
     for hi, nm in enumerate(hl):
-        blk = [['text', 'H%d:' % hi], ['probe', ids('h')]]
+        blk = [['text', 'H%d:' % hi], ['probe', ids('h')], einfo(ids)]
         if sec and sec[0] == 'h' and sec[1] == hi:
             blk.append(raiser(ids, sec[2], HOWS[(HOWS.index(how) + 1) % len(HOWS)], 'h%d' % hi))
         blk.append(['probe', ids('h')])
@@ -712,11 +863,11 @@ def build_handler_case(params, how, wrapper, merge=False):
         handlers = [[handlers[0][0] + handlers[1][0], handlers[0][1]]] + handlers[2:]
     els = None
     if with_else:
-        els = [['text', 'E:'], ['probe', ids('e')]]
+        els = [['text', 'E:'], ['probe', ids('e')], einfo(ids)]
         if sec and sec[0] == 'else':
             els.append(raiser(ids, sec[2], HOWS[(HOWS.index(how) + 2) % len(HOWS)], 'else'))
         els.append(['probe', ids('e')])
-    tree = wrap(ids, [['try', body, handlers, els]], wrapper, subs)
+    tree = wrap(ids, [['try', body, handlers, els], einfo(ids)], wrapper, subs)
     return {'part': 'handler-grid', 'tree': tree, 'subs': subs}
 
 
@@ -749,19 +900,32 @@ def grid_finally_cases():
                 ids = Ids()
                 subs = {}
                 body = [['text', 'B:'], ['probe', ids('b')]] + action_node(ids, ba, 'body') + [['probe', ids('b')]]
-                fin = [['text', 'F:'], ['probe', ids('f')]] + action_node(ids, fa, 'fin') + [['probe', ids('f')]]
+                fin = [['text', 'F:'], ['probe', ids('f')], einfo(ids)] + action_node(ids, fa, 'fin') \
+                    + [['probe', ids('f')]]
                 tree = wrap(ids, [['tryfin', body, fin]], w, subs)
                 yield {'part': 'finally-grid', 'tree': tree, 'subs': subs}
 
 
 # -- placement grid: return / raise inside every block kind
 KINDS = ['in', 'in_else', 'with', 'let', 'if', 'if_else', 'unless', 'try_body', 'except', 'else',
-         'try_body_fin', 'finally', 'finally_pending', 'raise_body', 'sub_var', 'sub_call', 'comment']
+         'try_body_fin', 'finally', 'finally_pending', 'raise_body', 'sub_var', 'sub_call', 'comment',
+         'with_map', 'with_only', 'sub_fresh']
+# one kind deep, every spelling of "only" is its own kind; deeper, 'with_only' rotates through them
+KINDS_ONE = KINDS + ['with_only/' + v for v in WITH_ONLY]
 
 
-def place(ids, kind, inner, subs):
+def place(ids, kind, inner, subs, rot=None):
     """Nodes putting `inner` inside a block of the given kind."""
     blk = [['probe', ids()]] + inner + [['probe', ids()]]
+    if kind == 'with_map':
+        return [['with', blk, 'map']]
+    if kind.startswith('with_only'):
+        v = kind.split('/')[1] if '/' in kind else only_variant(ids, rot)
+        return [['with', [einfo(ids)] + blk, v]]
+    if kind == 'sub_fresh':
+        key = 's%d' % len(subs)
+        subs[key] = [einfo(ids)] + blk
+        return [['sub', key, 'fresh'], ['text', '|']]
     if kind == 'in':
         return [['in', 2, blk, [['probe', ids()]]]]
     if kind == 'in_else':
@@ -781,7 +945,8 @@ def place(ids, kind, inner, subs):
                  [['text', 'EL:'], ['probe', ids('e')]]]]
     if kind == 'except':
         return [['try', [['probe', ids()], ['boom', ids('x'), 'E1', 'm-k', 0]],
-                 [[['Other'], [['probe', ids('h')]]], [['E2'], blk], [[''], [['probe', ids('h')]]]], None]]
+                 [[['Other'], [['probe', ids('h')]]], [['E2'], [einfo(ids)] + blk + [einfo(ids)]],
+                  [[''], [['probe', ids('h')]]]], None]]
     if kind == 'else':
         return [['try', [['probe', ids()]], [[[''], [['probe', ids('h')]]]], blk]]
     if kind == 'try_body_fin':
@@ -789,7 +954,7 @@ def place(ids, kind, inner, subs):
     if kind == 'finally':
         return [['tryfin', [['probe', ids()]], blk]]
     if kind == 'finally_pending':
-        return [['tryfin', [['probe', ids()], ['boom', ids('x'), 'E2', 'm-pend', 0]], blk]]
+        return [['tryfin', [['probe', ids()], ['boom', ids('x'), 'E2', 'm-pend', 0]], [einfo(ids)] + blk]]
     if kind == 'raise_body':
         return [['raise', 'expr', 'E3', [['text', 'rb-']] + blk]]
     if kind in ('sub_var', 'sub_call'):
@@ -829,23 +994,23 @@ def pcontext(ids, ctxname, nodes, subs):
     if ctxname == 'try_bare_else':
         return [['probe', ids()],
                 ['try', [['probe', ids()]] + nodes + [['probe', ids()]],
-                 [[['E2'], [['text', 'C2:'], ['probe', ids('c')]]],
-                  [[''], [['text', 'CB:'], ['probe', ids('c')]]]],
-                 [['text', 'CE:'], ['probe', ids('c')]]],
+                 [[['E2'], [['text', 'C2:'], ['probe', ids('c')], einfo(ids)]],
+                  [[''], [['text', 'CB:'], ['probe', ids('c')], einfo(ids)]]],
+                 [['text', 'CE:'], ['probe', ids('c')], einfo(ids)]],
                 ['probe', ids()]]
     if ctxname == 'try_named':
         return [['probe', ids()],
                 ['try', [['probe', ids()]] + nodes + [['probe', ids()]],
-                 [[['ArithmeticError', 'LookupError'], [['text', 'CL:'], ['probe', ids('c')]]],
-                  [['HTTPException'], [['text', 'CH:'], ['probe', ids('c')]]],
-                  [['E3'], [['text', 'C3:'], ['probe', ids('c')]]],
-                  [['Other'], [['text', 'CO:'], ['probe', ids('c')]]]],
+                 [[['ArithmeticError', 'LookupError'], [['text', 'CL:'], ['probe', ids('c')], einfo(ids)]],
+                  [['HTTPException'], [['text', 'CH:'], ['probe', ids('c')], einfo(ids)]],
+                  [['E3'], [['text', 'C3:'], ['probe', ids('c')], einfo(ids)]],
+                  [['Other'], [['text', 'CO:'], ['probe', ids('c')], einfo(ids)]]],
                  None],
                 ['probe', ids()]]
     if ctxname == 'tryfin':
         return [['probe', ids()],
                 ['tryfin', [['probe', ids()]] + nodes + [['probe', ids()]],
-                 [['text', 'CF:'], ['probe', ids('c')]]],
+                 [['text', 'CF:'], ['probe', ids('c')], einfo(ids)]],
                 ['probe', ids()]]
     if ctxname == 'in_loop':
         return [['probe', ids()], ['in', 2, [['probe', ids()]] + nodes + [['probe', ids()]], None],
@@ -853,7 +1018,7 @@ def pcontext(ids, ctxname, nodes, subs):
     if ctxname == 'handler':
         return [['probe', ids()],
                 ['try', [['boom', ids('x'), 'Other', 'm-ctx', 0]],
-                 [[['Other'], [['probe', ids()]] + nodes + [['probe', ids()]]]], None],
+                 [[['Other'], [['probe', ids()], einfo(ids)] + nodes + [['probe', ids()], einfo(ids)]]], None],
                 ['probe', ids()]]
     if ctxname == 'sub_call':
         key = 'c%d' % len(subs)
@@ -862,7 +1027,7 @@ def pcontext(ids, ctxname, nodes, subs):
     raise ValueError(ctxname)
 
 
-def build_placement(kinds, act, ctxname):
+def build_placement(kinds, act, ctxname, rot=None):
     ids = Ids()
     subs = {}
     if act[0] == 'return':
@@ -872,7 +1037,7 @@ def build_placement(kinds, act, ctxname):
     else:
         inner = [['boom', ids('x'), act[1], 'm-act', 0]]
     for kind in reversed(kinds):          # kinds[0] is the outermost block
-        inner = place(ids, kind, inner, subs)
+        inner = place(ids, kind, inner, subs, rot)
     tree = pcontext(ids, ctxname, inner, subs)
     return {'part': 'placement', 'tree': tree, 'subs': subs}
 
@@ -935,8 +1100,10 @@ class RandomTrees:
             if key == 'o' and mode == 'lit':
                 mode = 'expr'
             return ['return', mode, key]
-        if r < 0.9:
+        if r < 0.87:
             return ['text', rng.choice(['t', 'some text ', '::'])]
+        if r < 0.95:
+            return ['einfo', self.ids('i'), rng.choice(EFORMS)]
         return ['probe', self.ids()]
 
     def node(self, depth, tdepth, top=False):
@@ -958,7 +1125,10 @@ class RandomTrees:
                     else:
                         bare = True
                         names = ['']
-                handlers.append([names, self.block(depth - 1, tdepth - 1)])
+                hb = self.block(depth - 1, tdepth - 1)
+                if rng.random() < 0.5:
+                    hb.insert(rng.randrange(len(hb) + 1), ['einfo', self.ids('i'), rng.choice(EFORMS)])
+                handlers.append([names, hb])
             els = self.block(depth - 1, tdepth - 1) if rng.random() < 0.5 else None
             return ['try', self.block(depth - 1, tdepth - 1), handlers, els]
         if r < 0.50 and tdepth > 0:
@@ -968,7 +1138,8 @@ class RandomTrees:
             return ['in', n, self.block(depth - 1, tdepth),
                     self.block(depth - 1, tdepth, n=1) if rng.random() < 0.4 else None]
         if r < 0.65:
-            return ['with', self.block(depth - 1, tdepth)]
+            return ['with', self.block(depth - 1, tdepth),
+                    rng.choice(['obj', 'map'] + WITH_ONLY + WITH_ONLY)]
         if r < 0.70:
             return ['let', self.block(depth - 1, tdepth)]
         if r < 0.78:
@@ -980,7 +1151,7 @@ class RandomTrees:
             key = 'r%d' % len(self.subs)
             self.subs[key] = None      # reserve
             self.subs[key] = self.block(depth - 1, tdepth)
-            return ['sub', key, rng.choice(['var', 'call'])]
+            return ['sub', key, rng.choice(['var', 'call', 'fresh'])]
         if r < 0.95:
             mode, name = rng.choice(self.RPOOL)
             return ['raise', mode, name, self.block(depth - 1, tdepth, n=1)]
@@ -997,15 +1168,17 @@ VCLS = ['E1', 'E2', 'E3', 'Other', 'E12', 'KeyError', 'IndexError', 'ValueError'
 
 
 def try_around(ids, body, hl, with_else, tag=''):
-    handlers = [[[nm], [['text', 'H%d%s:' % (hi, tag)], ['probe', ids('h')]]] for hi, nm in enumerate(hl)]
-    els = [['text', 'E:'], ['probe', ids('e')]] if with_else else None
+    handlers = [[[nm], [['text', 'H%d%s:' % (hi, tag)], ['probe', ids('h')], einfo(ids)]]
+                for hi, nm in enumerate(hl)]
+    els = [['text', 'E:'], ['probe', ids('e')], einfo(ids)] if with_else else None
     return ['try', [['text', 'B:'], ['probe', ids('b')]] + body + [['probe', ids('b')]], handlers, els]
 
 
 def grid_rerender_cases():
     """Every handler list around a dtml-raise of a COMPUTED class; the one compiled template is
     (a) rendered 6 times with a different class each time (the first class rotates with the
-    case index), (b) put in a loop whose rows carry the class, rendered with two row orders."""
+    case index), (b) put in a loop whose rows carry the class, rendered with two row orders,
+    (c) put into a dtml-with ... only block inside an outer handler, rendered 6 times."""
     modes = ['expr', 'qexpr', 'cls']
     seq = ['E1', 'E3', 'Other', 'E2', None, 'E12']
     for i, hl in enumerate(handler_lists()):
@@ -1026,6 +1199,20 @@ def grid_rerender_cases():
         rows2 = [{'cv_a': c} for c in reversed(rot)]
         yield {'part': 'rerender-grid', 'tree': tree, 'subs': {},
                'renders': [{'rows_a': rows1}, {'rows_a': rows2}, {'rows_a': rows1[2:4]}]}
+        # (c) the same try in a namespace of its own (dtml-with ... only), inside a handler of an
+        # outer try: what the inner try binds / returns must not depend on the hidden outer state
+        ids = Ids()
+        vr = ['vraise', modes[(i + 2) % 3], 'a', [['text', 'm-only']]]
+        inner = [['probe', ids()], try_around(ids, [vr], hl, i % 2), ['probe', ids()]]
+        if i % 2:
+            inner.append(['vif', 'r', [['vreturn', 'name', 'r']], None])
+        tree = [['probe', ids()],
+                ['try', [['boom', ids('x'), 'Other', 'm-outer', 0]],
+                 [[['Other'], [['probe', ids()], ['with', inner, only_variant(ids, i)], einfo(ids)]]], None],
+                ['probe', ids()]]
+        yield {'part': 'rerender-grid', 'tree': tree, 'subs': {},
+               'renders': [{'cv_a': c, 'tf_r': j % 2, 'dv_r': RET_KEYS[(i + j) % len(RET_KEYS)]}
+                           for j, c in enumerate(rot)]}
 
 
 def grid_loop_cases():
@@ -1053,22 +1240,23 @@ def grid_loop_cases():
             ids = Ids()
             act = mk(ids)
             if form == 'except':
-                hblock = [['text', 'H2:'], ['probe', ids('h')]]
+                hblock = [['text', 'H2:'], ['probe', ids('h')], einfo(ids)]
                 if aname == 'handler-return':
                     hblock.append(['vif', 'c', [['vreturn', 'expr', 'b']], None])
                 inner = ['try', [['probe', ids('b')]] + act + [['probe', ids('b')]],
-                         [[['E2'], hblock], [['Other', 'LookupError'], [['text', 'HO:'], ['probe', ids('h')]]]],
-                         [['text', 'E:'], ['probe', ids('e')]]]
+                         [[['E2'], hblock],
+                          [['Other', 'LookupError'], [['text', 'HO:'], ['probe', ids('h')], einfo(ids)]]],
+                         [['text', 'E:'], ['probe', ids('e')], einfo(ids)]]
             elif form == 'finally':
                 inner = ['try', [['tryfin', [['probe', ids('b')]] + act + [['probe', ids('b')]],
-                                 [['text', 'F:'], ['probe', ids('f')]]]],
-                         [[[''], [['text', 'HB:'], ['probe', ids('h')]]]], None]
+                                 [['text', 'F:'], ['probe', ids('f')], einfo(ids)]]],
+                         [[[''], [['text', 'HB:'], ['probe', ids('h')], einfo(ids)]]], None]
             else:
                 inner = ['tryfin',
                          [['try', [['probe', ids('b')]] + act + [['probe', ids('b')]],
-                           [[['E1'], [['text', 'H1:'], ['probe', ids('h')]]]], None]],
+                           [[['E1'], [['text', 'H1:'], ['probe', ids('h')], einfo(ids)]]], None]],
                          [['text', 'F:'], ['probe', ids('f')]]]
-                inner = ['try', [inner], [[['Exception'], [['text', 'HX:'], ['probe', ids('h')]]]], None]
+                inner = ['try', [inner], [[['Exception'], [['text', 'HX:'], ['probe', ids('h')], einfo(ids)]]], None]
             tree = [['probe', ids()], ['vin', 'a', [['probe', ids()], inner, ['text', ','], ['probe', ids()]]],
                     ['text', '.'], ['probe', ids()]]
             renders = [{'rows_a': [dict(r) for r in rows]} for rows in itertools.product(choices, repeat=3)]
